@@ -30,7 +30,8 @@ Fixpoint zlist_ltb (a b : list Z) : bool :=
 Inductive fkind := FScalar | FRel (tgt : Z).
 Record schema := {
   sc_fields : list (Z * list (Z * fkind));   (* class -> all (also inherited) mapped fields *)
-  sc_sub : list (Z * Z)                      (* (c, a): c is a (non-strict) subclass of a *)
+  sc_sub : list (Z * Z);                     (* (c, a): c is a (non-strict) subclass of a *)
+  sc_enums : list (Z * Z)                    (* (class, attribute): the column is Enum-typed *)
 }.
 Record obj := { o_key : Z; o_cls : Z; o_fields : list (Z * val) }.
 Definition world := list obj.
